@@ -95,49 +95,50 @@ def run_parts(ctx, parts, par, timeout):
 
 
 def plan(tier: str):
-    """(prop partitions, emit partitions) for the tier."""
+    """(prop partitions, emit partitions) for the tier.  One TLC process per direction assignment (and
+    per family); every process is single-worker, so its breadth-first levels are exact depths."""
     prop, emit = [], []
 
-    def ls(kind, tagp, nelem, ncur, inits, dirs, depth, pair, rej, maxbox):
-        for i in inits:
+    def ls(kind, tagp, nelem, ncur, inits, dirs, depth, pair, rej, maxbox, split_inits=False):
+        groups = [[i] for i in inits] if split_inits else [list(inits)]
+        for grp in groups:
             for d in dirs:
-                consts = dict(NElem=nelem, MaxBox=maxbox, NCur=ncur, InitIds=_set([i]), DirIds=_set([d]), MaxDepth=depth,
+                consts = dict(NElem=nelem, MaxBox=maxbox, NCur=ncur, InitIds=_set(grp), DirIds=_set([d]), MaxDepth=depth,
                               PairMode=pair, WithRej="TRUE" if rej else "FALSE")
+                tag = f"{tagp}-i{'_'.join(map(str, grp))}-d{d}"
                 if kind == "prop":
-                    prop.append(Part(f"p-{tagp}-i{i}d{d}", "LinkedSetMC.tla", "LinkedSetMC_prop.cfg", consts))
+                    prop.append(Part("p-" + tag, "LinkedSetMC.tla", "LinkedSetMC_prop.cfg", consts))
+                elif kind == "both":
+                    emit.append(Part("b-" + tag, "LinkedSetMC.tla", "LinkedSetMC_both.cfg", consts, "ls", nelem))
                 else:
-                    emit.append(Part(f"e-{tagp}-i{i}d{d}", "LinkedSetMC.tla", "LinkedSetMC_emit.cfg", consts, "ls", nelem))
+                    emit.append(Part("e-" + tag, "LinkedSetMC.tla", "LinkedSetMC_emit.cfg", consts, "ls", nelem))
 
-    def rec(tagp, inits, depth, nelem=2, maxbox=10):
-        for i in inits:
+    def rec(tagp, inits, depth, nelem=2, maxbox=10, split_inits=False):
+        groups = [[i] for i in inits] if split_inits else [list(inits)]
+        for grp in groups:
             for d in ("f", "b"):
-                consts = dict(NElem=nelem, MaxBox=maxbox, InitIds=_set([i]), Dirs=_set([d]), MaxDepth=depth)
-                emit.append(Part(f"r-{tagp}-i{i}{d}", "RecIterMC.tla", "RecIterMC.cfg", consts, "rec", nelem))
+                consts = dict(NElem=nelem, MaxBox=maxbox, InitIds=_set(grp), Dirs=_set([d]), MaxDepth=depth)
+                emit.append(Part(f"r-{tagp}-i{'_'.join(map(str, grp))}-{d}", "RecIterMC.tla", "RecIterMC.cfg", consts, "rec", nelem))
 
+    # "both" = all invariants and action properties with the ghosts in the fingerprint AND every explored
+    # transition printed for the replay; "prop" = properties only (too many behaviours to replay them all)
     if tier == "quick":
-        # all properties, ghosts in the fingerprint
-        ls("prop", "full1", 3, 1, [0, 1, 3], [0, 1], 3, 1, True, 9)       # whole alphabet incl. pairs and rejected calls
-        ls("prop", "core1", 3, 1, [2, 3, 4], [0, 1], 4, 0, False, 8)      # deeper around a parked cursor
-        ls("prop", "core2", 3, 2, [5, 6, 7], [0, 2], 3, 0, False, 8)      # two cursors, same / opposite directions
-        # behaviours for replay
-        ls("emit", "full1", 3, 1, [0, 1, 3], [0, 1], 3, 1, True, 9)
-        ls("emit", "full2", 3, 2, [5, 6, 7], [0, 2, 3], 2, 1, True, 8)
-        ls("emit", "core1", 3, 1, [3], [0, 1], 4, 0, False, 8)
+        ls("both", "full1", 3, 1, [0, 1, 3], [0, 1], 3, 1, True, 9)       # whole alphabet incl. pairs and rejected calls
+        ls("both", "core1", 3, 1, [3], [0, 1], 4, 0, False, 8)            # deeper around a cursor parked in the middle
+        ls("prop", "core1", 3, 1, [2, 4], [0, 1], 4, 0, False, 8)         #   ... parked on the first / last node
+        ls("both", "core2", 3, 2, [5, 6, 7], [0, 2], 3, 0, False, 8)      # two cursors, same / opposite directions
+        ls("both", "full2", 3, 2, [5, 6, 7], [0, 2, 3], 2, 1, True, 8)
         rec("d3", [0, 1, 2, 3, 4], 3)
     else:
-        ls("prop", "full1", 3, 1, [0, 1, 2, 3, 4], [0, 1], 4, 1, True, 10)
-        ls("prop", "core1", 3, 1, [2, 3, 4], [0, 1], 6, 0, False, 10)
-        ls("prop", "core2", 3, 2, [5, 6, 7], [0, 2, 3], 5, 0, False, 9)
-        ls("prop", "full2", 3, 2, [5, 6, 7], [0, 2, 3], 3, 1, True, 10)
-        ls("prop", "four1", 4, 1, [9], [0, 1], 4, 1, True, 12)
-        ls("prop", "four3", 4, 3, [10, 11], [0, 2, 3], 4, 0, False, 10)
-        ls("emit", "full1", 3, 1, [0, 1, 2, 3, 4], [0, 1], 4, 1, True, 10)
-        ls("emit", "full2", 3, 2, [5, 6, 7], [0, 2, 3], 3, 1, True, 10)
-        ls("emit", "core2", 3, 2, [6, 7], [0, 2, 3], 5, 0, False, 9)
-        ls("emit", "four1", 4, 1, [9], [0, 1], 3, 1, True, 12)
-        ls("emit", "four3", 4, 3, [10, 11], [0, 2, 3], 4, 0, False, 10)
-        rec("d5", [0, 1, 2, 3, 4], 5)
-        rec("n3", [0, 2], 3, nelem=3, maxbox=10)
+        ls("both", "full1", 3, 1, [1, 3], [0, 1], 4, 1, True, 10, split_inits=True)
+        ls("both", "full1s", 3, 1, [0, 2, 4], [0, 1], 3, 1, True, 10)
+        ls("both", "core1", 3, 1, [2, 3, 4], [0, 1], 5, 0, False, 10, split_inits=True)
+        ls("both", "core2", 3, 2, [5, 6, 7], [0, 2, 3], 4, 0, False, 9, split_inits=True)
+        ls("both", "full2", 3, 2, [5, 6, 7], [0, 2, 3], 3, 1, True, 10, split_inits=True)
+        ls("both", "four1", 4, 1, [9], [0, 1], 3, 1, True, 12)
+        ls("both", "four3", 4, 3, [10, 11], [0, 2, 3], 3, 0, False, 10, split_inits=True)
+        rec("d4", [0, 1, 2, 3, 4], 4, split_inits=True)
+        rec("n3", [2, 5], 3, nelem=3, maxbox=10, split_inits=True)
     return prop, emit
 
 
@@ -190,11 +191,15 @@ def _report(ctx, rep, traces, source, div_total):
                                 actions=[e[:4] for e in tr["ev"][:l]], observed=[e[4:9] for e in tr["ev"][:l]], event=l,
                                 message=f"{kind}: after {[_act_str(e) for e in tr['ev'][:l - 1]]} the call {_act_str(ev)} gave {ev[4:7]}: "
                                         f"{CLAUSES.get(clause, clause)} (clause decided by TLC on the observed trace)"))
-    for tid, l, names in rep["obs"]:
+    first_obs: dict = {}
+    for tid, l, names in rep["obs"]:         # a sequence that is described wrongly stays so: first event per trace
+        if tid not in first_obs or l < first_obs[tid][0]:
+            first_obs[tid] = (l, names)
+    for tid, (l, names) in sorted(first_obs.items(), key=lambda kv: kv[1][0]):
         tr = traces[tid - 1]
         ev = tr["ev"][l - 1]
         kind = tr.get("k") or tr.get("kind")
-        ctx.violation(f"C11:obs-{'+'.join(names)}:{ev[0]}:{kind}",
+        ctx.violation(f"C11:obs-{names[0]}:{kind}",
                       dict(cls="C11", source=source, kind=kind, clause="obs:" + "+".join(names),
                            trace={k: v for k, v in tr.items() if k in TRKEYS},
                            actions=[e[:4] for e in tr["ev"][:l]], observed=[e[4:] for e in tr["ev"][l - 1:l]], event=l,
@@ -217,14 +222,11 @@ def run(ctx) -> None:
 
     # ---- 1. design level ----------------------------------------------------------------------
     t0 = time.time()
-    run_parts(ctx, prop, par, timeout=3000 if thorough else 600)
-    ctx.extra["prop_partitions"] = len(prop)
-    ctx.extra["prop_wall_s"] = round(time.time() - t0, 1)
+    run_parts(ctx, prop + emit, par, timeout=6000 if thorough else 900)
+    ctx.extra["tlc_partitions"] = len(prop) + len(emit)
+    ctx.extra["tlc_wall_s"] = round(time.time() - t0, 1)
 
     # ---- 2. behaviours -> real code -------------------------------------------------------------
-    t0 = time.time()
-    run_parts(ctx, emit, par, timeout=3000 if thorough else 600)
-    ctx.extra["emit_wall_s"] = round(time.time() - t0, 1)
     t0 = time.time()
     keys_total, nontriv = {}, set()
     bad_ls, bad_rec = [], []
@@ -233,15 +235,16 @@ def run(ctx) -> None:
     groups: dict = {}
     for p in emit:
         groups.setdefault((p.emit_family, p.nelem), []).append(p.res.out_path)
-    cap_total = 4_000_000 if thorough else 600_000
+    cap_total = 1_500_000 if thorough else 700_000
+    nlines = sum(_count_records(p.res.out_path) for p in emit)
+    ctx.extra["behaviours_emitted"] = nlines
+    cap = None
+    if nlines > cap_total:                       # more behaviours than the tier replays: seeded sample of all files
+        cap = cap_total / nlines
+        complete = False
+        ctx.note(f"{nlines} behaviours emitted by TLC, a seeded sample of about {cap_total} of them is replayed")
     for (family, nelem), paths in sorted(groups.items()):
-        kinds = lsdrive.KINDS if family == "ls" else (0, 1)
-        nlines = sum(_count_records(x) for x in paths)
-        cap = None
-        if nlines > cap_total:                   # more behaviours than the tier replays: seeded sample
-            cap = cap_total / nlines
-            complete = False
-            ctx.note(f"{family}/{nelem}: {nlines} behaviours emitted, a seeded sample of about {cap_total} is replayed")
+        kinds = (lsdrive.KINDS if thorough else ("dls", "alt")) if family == "ls" else (0, 1)
         r = lsreplay.replay_files(paths, family, nelem, kinds, nproc=par, seed=ctx.seed, cap=cap)
         st = r["stats"]
         nbeh += st["behaviours"]
@@ -258,7 +261,7 @@ def run(ctx) -> None:
                 ctx.samples.append({"kind": f"TLC behaviour ({family}, {nelem} elements) replayed into " + "/".join(map(str, kinds)),
                                     "history": h})
     ctx.extra["replay_wall_s"] = round(time.time() - t0, 1)
-    ctx.extra["behaviours_emitted"] = nbeh
+    ctx.extra["behaviours_replayed"] = nbeh
     for p in emit:
         try:
             os.unlink(p.res.out_path)
@@ -267,16 +270,28 @@ def run(ctx) -> None:
 
     # ---- 3. real executions -> TLC -----------------------------------------------------------------
     t0 = time.time()
-    nls = 1500 if thorough else 210
-    nrec = 400 if thorough else 60
+    nls = 900 if thorough else 210
+    nrec = 300 if thorough else 60
     length = 60 if thorough else 40
-    traces = [lstrace.record_ls(ctx.seed * 100003 + i, lsdrive.KINDS[i % 3], nelem=8, ncur=3, length=length) for i in range(nls)]
-    rtraces = [lstrace.record_rec(ctx.seed * 100019 + i, nelem=4, length=30 if not thorough else 45) for i in range(nrec)]
+    traces, rtraces = [], []
+    for i in range(nls):
+        with lsreplay.watchdog(10):
+            traces.append(lstrace.record_ls(ctx.seed * 100003 + i, lsdrive.KINDS[i % 3], nelem=8, ncur=3, length=length))
+    for i in range(nrec):
+        with lsreplay.watchdog(10):
+            rtraces.append(lstrace.record_rec(ctx.seed * 100019 + i, nelem=4, length=30 if not thorough else 45))
     ctx.extra["trace_record_s"] = round(time.time() - t0, 1)
     # observed traces of the behaviours that disagreed in 2 are classified by the same specification
     obs_ls = [dict(k=b["kind"], family="ls", nelem=b["nelem"], init=b["init"], dirs=lsreplay.pad_dirs(b["dirs"]), ev=b["ev"]) for b in bad_ls]
     obs_rec = [dict(k=b["kind"], family="rec", nelem=b["nelem"], lo=b["lo"], li=b["li"], d=b["d"], ev=b["ev"]) for b in bad_rec]
 
+    # (the short behaviours first: the first case of a signature is the one that is kept and printed)
+    obs_ls.sort(key=lambda tr: len(tr["ev"]))
+    obs_rec.sort(key=lambda tr: len(tr["ev"]))
+    if obs_ls:
+        _report(ctx, _validate(ctx, "ls", obs_ls, "classify-ls"), obs_ls, "replay", div_total)
+    if obs_rec:
+        _report(ctx, _validate(ctx, "rec", obs_rec, "classify-rec"), obs_rec, "replay", div_total)
     rep = _validate(ctx, "ls", traces, "trace-ls")
     ctx.validated += len(rep["acc"])
     _report(ctx, rep, traces, "recorded-trace", div_total)
@@ -284,10 +299,6 @@ def run(ctx) -> None:
     ctx.validated += len(rrep["acc"])
     _report(ctx, rrep, rtraces, "recorded-trace", div_total)
     ctx.evaluations += sum(len(t["ev"]) for t in traces) + sum(len(t["ev"]) for t in rtraces)
-    if obs_ls:
-        _report(ctx, _validate(ctx, "ls", obs_ls, "classify-ls"), obs_ls, "replay", div_total)
-    if obs_rec:
-        _report(ctx, _validate(ctx, "rec", obs_rec, "classify-rec"), obs_rec, "replay", div_total)
     ctx.extra["trace_wall_s"] = round(time.time() - t0, 1)
 
     # ---- anti-vacuity: every action of the model is taken (thorough tier, cheap single run) ------------
